@@ -78,6 +78,18 @@ add("C18", "exhaustive enumeration of type pairs / clause-goal pairs through cou
     "could_match = false must imply REF-non-unifiability (unknowns of the two sides kept apart) for every ordered pair of a set of types of depth <= 2 (3 thorough) over all constructor kinds and for clause/goal pairs of trait references; every impl whose header unifies with an atomic goal must be returned by impls_for_trait; and for every (program, goal, solver) of the reduced corpus the answer must be identical when a database wrapper returns all impls of the trait instead of the filtered list.",
     "Trusted: Robinson unification over the harness term language.",
     "DESIGN.md §4 C18")
+add("C19", "exhaustive enumeration of impl multisets of one trait (identical, blanket, chains, diamonds, negative, marker) through the real coherence solver, judged against ground applicability sets",
+    "Every multiset of up to 3 (thorough 4) impls from 6 heads x where-clause x polarity, x 3 sets of supporting impls x plain/#[marker], both solvers: specialization_priorities must never panic; when it accepts a non-marker trait, two impls of equal priority must share no ground trait reference and an impl applying to a strict non-empty subset of another's references must have the higher priority.",
+    "Ground sets over types of depth <= 3 (4 thorough); only concrete common witnesses alarm. Marker traits: only totality is judged.",
+    "DESIGN.md §4 C19")
+add("C22", "exhaustive products of item features rendered to text; two write/parse/lower round trips compared as Program values under the normalization the statement allows",
+    "Ten families (ADT attributes and bodies, trait attributes and bodies, impls, opaque types, fn definitions, type forms in every position, name clashes), each a full product of small option lists (1.4*10^5 programs quick, 3.3*10^6 thorough): lower(write(P0)) must be equivalent to P0 (where-clauses as sets, implied trait bound of an equality bound added, names up to a bijection), the second round trip must reproduce text and program exactly where no equality bound or clash is involved, and a collapsed-names pass exercises the disambiguator.",
+    "Written by a helper agent; parses with a persistent ProgramParser per thread (same grammar). Four writer mutants (dropped #[marker], dropped `!`, swapped outlives sides, broken disambiguation) were detected. 16 genuine writer omissions/collisions are listed as findings D20/D21.",
+    "DESIGN.md §4 C22")
+add("C24", "exhaustive enumeration of short strings over representative characters, short token sequences spliced into every hole of program skeletons, and every single-edit semantic error of 36 templates; child processes attribute aborts to inputs",
+    "2.6*10^6 (quick) / 1.2*10^8 (thorough) inputs through parse_program / parse_goal / parse_ty, Lower::lower, lower_goal and checked_program: every call must return Ok or Err; panics are keyed by file + message; stack overflows/aborts are caught by running shards in child processes and bisecting.",
+    "Written by a helper agent. Panics inside checked_program that originate outside parsing/lowering code are reported as notes (C19/C21 territory), not as C24 violations. Invalid UTF-8 is represented by U+FFFD since &str cannot hold it.",
+    "DESIGN.md §4 C24")
 add("C25", "exhaustive enumeration of bounded terms (types, goals, clauses, substitutions) x substitutions; every real shift/substitute/fold result compared with textbook de Bruijn operations on the harness AST, plus the laws checked on the real values",
     "All terms up to rank 2 fully and rank 3 along a spine (thorough: rank 3 fully, rank 4 spine) with bound variables of all three kinds at depths 0..b+2 and indices 0..1 under fn-pointer, dyn, quantified-goal and clause binders, and all well-kinded parameter lists of length <= 2: shifted_in(_from), shifted_out(_to) incl. the escape error, Subst::apply, Binders::substitute, Substitution::apply must equal the reference; shift-in-then-out, identity substitution, cancellation and the substitution/shift commutation law must hold; folding with folders that override nothing must return an equal term.",
     "Trusted: the reference de Bruijn operations in harness/src/props/c25.rs. Written by a helper agent; six mutants of shift.rs / subst.rs / binder_impls.rs / fold.rs were all detected.",
